@@ -18,8 +18,15 @@ def replay(verdict, exe, res, seed=0, tag="print", sigprefix="print"):
         for k, names in enumerate(hide):
             lines.append("filterdef %d %s" % (k + 1, enc(",".join(sorted(names)))))
         lines.append("init c1 S %d" % FLAGBITS["COMMENTS"])
+        # every other behaviour: a filter is installed on the root BEFORE the sections are created and is
+        # replaced / removed afterwards - to the specification that is the same state
+        pre = (n % 2 == 1)
+        if pre:
+            lines.append("filter c1 2")
         lines.append("parsebuf c1 %s" % enc(pretext))
         lines.append("dump 0")
+        if pre and not s["froot"]:
+            lines.append("filter c1 -1")
         for where, key in (("c1", "froot"), ("c1#7/0", "fsec"), ("c1#7/0/2/0", "fsub"), ("c1#8/0", "ft1")):
             if s[key]:
                 lines.append("filter %s %d" % (where, s[key]))
@@ -35,7 +42,7 @@ def replay(verdict, exe, res, seed=0, tag="print", sigprefix="print"):
     for bid, b in meta.items():
         g = results.get(bid)
         s = b["setup"]
-        desc = "filters root=%d sec=%d sub=%d t1=%d cbs=%s target=%s" % (s["froot"], s["fsec"], s["fsub"], s["ft1"], ",".join(sorted(s["cbs"])), s["target"])
+        desc = ("prefiltered; " if int(bid[1:]) % 2 == 1 else "") + "filters root=%d sec=%d sub=%d t1=%d cbs=%s target=%s" % (s["froot"], s["fsec"], s["fsub"], s["ft1"], ",".join(sorted(s["cbs"])), s["target"])
         verdict.cov["traces_validated_against_impl"] += 1
         if g is None:
             raise ModelError("no output for %s" % bid)
